@@ -8,6 +8,7 @@ import sys
 
 from . import common
 from . import store_hist as sh
+from . import tieb_stores
 from .common import Check
 
 RULE = ("(a) deterministic corpus of ill-addressed operations (every write op x {foreign, dead, deleted, live} id x "
@@ -23,7 +24,7 @@ def main(argv=None):
     ck = Check("C04", argv)
     common.setup_impl_env()
     ck.run_witnesses(["w05", "w06", "w09", "w16"])
-    ck.prove()
+    ck.prove(extra_targets=tieb_stores.STORES[0], gen_kernels=tieb_stores.STORES[1])   # ties A + B
     have_driver = ck.driver("ExC02")
 
     n_random = 800 if ck.tier == "quick" else 40000
